@@ -32,7 +32,7 @@ for d in sorted(glob.glob('/verif/seeded/*[bcd]')):
         'demonstration': {'test_file': os.path.basename(t), 'test': run, 'package_dir': open(d + '/pkgdir').read().strip(),
                           'without_change': tail(d + '/run_without.log'), 'with_change': tail(d + '/run_with.log'),
                           'existing_tests_with_change': tail(d + '/existing_tests.log')},
-        'what_i_ran': ['tools/confirm_seed2.sh %s (later rounds: with the round's scratch root and suffix): demo passes without the change, fails with it; the touched packages\' own tests pass with it; the patch applies to /repo' % sid[:-1],
+        'what_i_ran': ['tools/confirm_seed2.sh %s (later rounds: with the scratch root and suffix of the round): demo passes without the change, fails with it; the touched packages\' own tests pass with it; the patch applies to /repo' % sid[:-1],
                        'DEMO=1 tools/try_seed.sh %s %s: git -C /repo apply, demo on the changed tree (fails), quick checks, git checkout -- .' % (sid, ' '.join(props))],
         'checks_run': props, 'outcome': outcome,
     }
